@@ -1,6 +1,7 @@
 package main
 
 import (
+	"go/token"
 	"go/constant"
 	"go/types"
 	"sort"
@@ -144,7 +145,70 @@ func (m *Model) invokesFieldValue(in ssa.Instruction, field string) bool {
 		return false
 	}
 	s := m.Sym.Of(cc.Value)
-	return m.symIsFieldValue(s, field)
+	if m.symIsFieldValue(s, field) {
+		return true
+	}
+	if v := m.traceValue(cc.Value); v != cc.Value {
+		return m.symIsFieldValue(m.Sym.Of(v), field)
+	}
+	return false
+}
+
+// traceValue follows a value backwards through the transparent ways it is handed on inside
+// the library: a load of a single-store cell, a captured variable of a closure (the binding
+// at the MakeClosure), and a parameter of a function with exactly one call site (the argument
+// there). It stops at the first value that is none of these.
+func (m *Model) traceValue(v ssa.Value) ssa.Value {
+	for i := 0; i < 8; i++ {
+		switch x := v.(type) {
+		case *ssa.UnOp:
+			if x.Op != token.MUL {
+				return v
+			}
+			al := m.Sym.resolveCell(x.X)
+			if al == nil {
+				return v
+			}
+			st := singleStore(al, m.Sym)
+			if st == nil {
+				return v
+			}
+			v = st
+		case *ssa.FreeVar:
+			mc := m.Sym.closureOf[x.Parent()]
+			if mc == nil {
+				return v
+			}
+			found := false
+			for i, fv := range x.Parent().FreeVars {
+				if fv == x && i < len(mc.Bindings) {
+					v = mc.Bindings[i]
+					found = true
+				}
+			}
+			if !found {
+				return v
+			}
+		case *ssa.Parameter:
+			sites := m.callers[x.Parent()]
+			if len(sites) != 1 {
+				return v
+			}
+			found := false
+			for i, q := range x.Parent().Params {
+				if q == x && i < len(sites[0].Instr.Common().Args) {
+					v = sites[0].Instr.Common().Args[i]
+					found = true
+				}
+			}
+			if !found {
+				return v
+			}
+		default:
+			return v
+		}
+	}
+	return v
 }
 
 func (m *Model) symIsFieldValue(s *Sym, field string) bool {
